@@ -562,6 +562,6 @@ class EntityIdTlv(AbstractTlvBase):
         """Custom implementation which only compares the numerical value of the entity IDs"""
         if not isinstance(other, EntityIdTlv):
             return False
-        own_id = UnsignedByteField.from_bytes(self.value)
-        other_id = UnsignedByteField.from_bytes(other.value)
-        return own_id.value == other_id.value
+        # Entity IDs can have any length from 1 to 8 octets, not only the 1, 2, 4 or 8 octets
+        # an UnsignedByteField supports
+        return int.from_bytes(self.value, "big") == int.from_bytes(other.value, "big")
